@@ -1,6 +1,7 @@
 """C15 / C02 / C04: BIOGEME.calculate_likelihood_and_derivatives: packaging, scaling, and the
 saved-iteration protocol (best-so-far marker, complete content installed by os.replace)."""
 from pyvc.contract import contract, field_type
+import contracts.c02_outputs  # noqa: F401  (assumed Database contracts shared with C02/C04)
 
 B = 'biogeme.biogeme.BIOGEME.'
 field_type('BIOGEME', 'database', 'Database')
@@ -15,10 +16,6 @@ field_type('IdManager', 'free_betas', 'ElementsTuple')
 field_type('ElementsTuple', 'names', 'list[str]')
 field_type('ElementsTuple', 'indices', 'dict[str, int]')
 
-contract('biogeme.database.Database.get_sample_size', ['C15', 'C02', 'C04'], verify=False, pure=True,
-         returns='int', ensures={'t': 'True'}, note='assumed: the sample size is a function of the database object (not changed by rebuilding the panel map)')
-contract('biogeme.database.Database.is_panel', ['C15', 'C02', 'C04'], verify=False, pure=True, reads=['panelColumn'], returns='bool', ensures={'t': 'True'})
-contract('biogeme.database.Database.build_panel_map', ['C15', 'C02', 'C04'], verify=False, modifies=['*.individualMap', '*.data', '*.fullIndividualMap'], ensures={'t': 'True'})
 contract(B + '_save_iterations_file_name', ['C15', 'C02', 'C04'], verify=False, pure=True, reads=['modelName'], returns='str', ensures={'t': 'True'},
          note='file name derived from the model name (pure)')
 contract(B + 'report_array', ['C15', 'C02', 'C04'], verify=False, pure=True, returns='str', ensures={'t': 'True'})
@@ -29,6 +26,8 @@ F, G, H, BH = f'{ENG}[0]', f'{ENG}[1]', f'{ENG}[2]', f'{ENG}[3]'
 NSS = 'float(self.database.get_sample_size())'
 SAVES = (f"bool(app('numpy.isfinite', app('numpy.linalg.norm', {G}))) and old(self.save_iterations) and "
          f"bool(app('numpy.isfinite', {F})) and (old(self.bestIteration) is None or {F} >= typed(old(self.bestIteration), 'float'))")
+
+LINE = 'f"{self.id_manager.free_betas.names[q]} = {x[q]}"'
 
 contract(B + 'calculate_likelihood_and_derivatives', ['C15', 'C02', 'C04'],
          types={'x': 'list[float]', 'scaled': 'bool', 'hessian': 'bool', 'bhhh': 'bool', 'batch': 'float | None'},
@@ -45,4 +44,8 @@ contract(B + 'calculate_likelihood_and_derivatives', ['C15', 'C02', 'C04'],
              'marker_follows_best': f"implies({SAVES}, self.bestIteration == {F})",
              'marker_kept_otherwise': f"implies(not ({SAVES}), same(self.bestIteration, old(self.bestIteration)))",
              'file_installed_iff_best': f"iterfile_installs() == ite({SAVES}, 1, 0)",
-         })
+             'installed_under_the_iteration_file_name': f"implies({SAVES}, iterfile_target() == self._save_iterations_file_name())",
+             'one_complete_line_per_free_parameter': f"implies({SAVES}, len(iterfile_lines()) == len(x) and "
+                                                     "forall(lambda q: iterfile_lines()[q] == LINE, 0, len(x)))".replace('LINE', LINE),
+         },
+         invariants={1: {'clauses': {'lines_so_far': "len(file_lines(pf)) == _k and forall(lambda q: file_lines(pf)[q] == LINE, 0, _k)".replace('LINE', LINE)}}})
